@@ -6,12 +6,20 @@ use crate::spaces::*;
 use serde_json::{json, Value};
 use sourcemap::{decode_slice, DecodedMap, SourceMap, SourceMapIndex, SourceMapSection};
 
-pub const HOW_NAMES: [&str; 3] = ["raw-constructor", "builder", "decoded-from-independent-writer"];
+pub const HOW_NAMES: [&str; 4] = ["raw-constructor", "builder", "decoded-from-independent-writer", "raw-constructor-after-root-changes"];
 
 pub fn construct(m: &RMap, how: usize) -> Option<SourceMap> {
     match how {
         0 => Some(build_new(m)),
         1 => build_builder(m),
+        3 => {
+            // the same map reached through a short setter history: another root first
+            let mut sm = build_new(m);
+            sm.set_source_root(Some("previous/root"));
+            sm.set_source_root(Some(""));
+            sm.set_source_root(m.root.as_deref());
+            Some(sm)
+        }
         _ => match decode_slice(rv3_write(m).as_bytes()) {
             Ok(DecodedMap::Regular(sm)) => Some(sm),
             _ => None,
@@ -203,9 +211,9 @@ fn shape_class(m: &RMap) -> u64 {
 
 pub fn run(run: &mut Run) -> Finish {
     let tier = run.ctx.tier;
-    let kmax = tier.pick(4, 5);
+    let kmax = tier.pick(4, 6);
     let nt = t_count(kmax);
-    run.par_slice("T: every sorted multiset of <= 4/5 tokens over 6 positions x 7 payloads, three constructions", 1, nt * 3, |idx, l| {
+    run.par_slice("T: every sorted multiset of <= 4/6 tokens over 6 positions x 7 payloads, three constructions", 1, nt * 3, |idx, l| {
         let k = idx & ((1 << 40) - 1);
         let m = t_map(kmax, k / 3);
         let (v, ran) = check_regular(&m, (k % 3) as usize);
@@ -220,10 +228,10 @@ pub fn run(run: &mut Run) -> Finish {
         }
     });
     let n1 = s1_count();
-    run.par_slice("S1: source lists of length <= 3 over the string pool x root pool x contents patterns, three constructions", 2, n1 * 3, |idx, l| {
+    run.par_slice("S1: source lists of length <= 3 over the string pool x root pool x contents patterns, four constructions (the fourth reaches the map through root changes)", 2, n1 * 4, |idx, l| {
         let k = idx & ((1 << 40) - 1);
-        let m = s1_map(k / 3);
-        let (v, ran) = check_regular(&m, (k % 3) as usize);
+        let m = s1_map(k / 4);
+        let (v, ran) = check_regular(&m, (k % 4) as usize);
         for x in v {
             l.violation(idx, x);
         }
@@ -231,7 +239,7 @@ pub fn run(run: &mut Run) -> Finish {
             l.case(!m.sources.is_empty(), shape_class(&m) ^ h64(&(m.root.as_deref(), m.sources.iter().map(|s| s.starts_with('/') || s.starts_with("http")).collect::<Vec<_>>())));
         }
         if l.wants_sample(idx) {
-            l.sample(idx, json!({"slice": "S1", "construction": HOW_NAMES[(k % 3) as usize], "sources": m.sources, "root": m.root, "contents": m.contents}));
+            l.sample(idx, json!({"slice": "S1", "construction": HOW_NAMES[(k % 4) as usize], "sources": m.sources, "root": m.root, "contents": m.contents}));
         }
     });
     let n2 = s2_count();
@@ -256,6 +264,21 @@ pub fn run(run: &mut Run) -> Finish {
         }
         if ran {
             l.case(true, shape_class(&m));
+        }
+    });
+    let nx = x_count();
+    run.par_slice("X: extreme coordinates: two / three tokens with generated columns and original lines / columns over {0, 7, 2^31-1, 2^31, 2^32-2, 2^32-1} (deltas of 2^31 and more in both directions), three constructions", 6, nx * 3, |idx, l| {
+        let k = idx & ((1 << 40) - 1);
+        let m = x_map(k / 3);
+        let (v, ran) = check_regular(&m, (k % 3) as usize);
+        for x in v {
+            l.violation(idx, x);
+        }
+        if ran {
+            l.case(true, h64(&("X", m.tokens.iter().map(|t| (t.gc >> 30, t.src.map(|s| (s.1 >> 30, s.2 >> 30)))).collect::<Vec<_>>())));
+        }
+        if l.wants_sample(idx) {
+            l.sample(idx, json!({"slice": "X", "tokens": m.tokens, "document": rv3_write(&m)}));
         }
     });
     let docs = doc_pool(tier == Tier::Thorough);
